@@ -240,7 +240,10 @@ def main(argv=None):
         return None
 
     not_exercised = [t for t in targets if _executed(t) is None]
-    if args.only is None and not errors:
+    form_cut = any(e.get("kind") == "inv-form" for e in undecided)
+    if args.only is None and not errors and not form_cut:
+        # (after a 'loop restructured' verdict the path ends at that loop: what lies behind it was not reached because
+        #  of that verdict, which is already reported as UNDECIDED)
         for t in not_exercised:
             # a function named as being under contract that no scenario ever reaches is an over-claim: checker error
             print(f"CHECKER-ERROR target={t} is listed as under contract but its source was never executed by a scenario")
